@@ -163,6 +163,10 @@ func (s *Stream) reset() {
 	s.conn = nil
 	s.src.Reset()
 	s.dst.Reset()
+	for _, f := range s.pendingFrames {
+		s.releaseFrame(f)
+	}
+	s.pendingFrames = s.pendingFrames[:0]
 }
 
 // Returns the stream through which IO is done.
